@@ -354,6 +354,21 @@ Proof.
   destruct (release_loop_frame c order s) as (_ & _ & _ & _ & A & B). split; assumption.
 Qed.
 
+Lemma start_tail_books c s t k s' :
+  start_tail c s t k = Some s' -> nconn s' = nconn s /\ closedc s' = closedc s.
+Proof.
+  unfold start_tail. destruct (connect_must_wait _); [|intros [= <-]; apply proceed_books].
+  destruct (refuse_wait s); intros [= <-]; split; reflexivity.
+Qed.
+
+Lemma requeue_books c s1 t k order s' :
+  requeue c s1 t k order = Some s' -> nconn s' = nconn s1 /\ closedc s' = closedc s1.
+Proof.
+  unfold requeue. destruct (hand_on c s1 order) as [s2|] eqn:Eh; [|discriminate].
+  destruct (hand_on_frame _ _ _ _ Eh) as (_ & _ & _ & _ & E & G).
+  destruct (refuse_wait s2); intros [= <-]; split; assumption.
+Qed.
+
 Lemma step_closed_books c s e s' :
   closed s = true -> step c s e = Some s' ->
   closed s' = true /\
@@ -364,15 +379,15 @@ Proof.
   { destruct (closed s') eqn:E; [reflexivity|]. pose proof (step_closed _ _ _ _ H E). congruence. }
   destruct e as [t k|t order|t|t|t order|t cl order|]; cbn [step] in H.
   - destruct (get_pc (pcs s) t); try discriminate.
-    destruct (take_idle k (idle s)); [injection H as <-; left; apply proceed_books|].
-    destruct (connect_must_wait _); [|injection H as <-; left; apply proceed_books].
-    destruct (refuse_wait s); injection H as <-; left; split; reflexivity.
+    destruct (if connect_fast_path (avail c s k) then take_idle k (idle s) else None);
+      [injection H as <-; left; apply proceed_books|].
+    left. eapply start_tail_books; eauto.
   - destruct (get_pc (pcs s) t) as [| k f | | | | |]; try discriminate. destruct f; try discriminate.
     + destruct (wait_slot_found _).
       * injection H as <-. left.
         destruct (proceed_books c (with_woken s (filter (fun x => negb (x =? t)) (woken s))) t k) as (A & B).
         split; assumption.
-      * destruct (refuse_wait _); injection H as <-; left; split; reflexivity.
+      * left. destruct (requeue_books _ _ _ _ _ _ H) as (A & B). split; [exact A|exact B].
     + injection H as <-. left. split; reflexivity.
     + destruct (release_waiter c _ order) as [s2|] eqn:Er; [|discriminate]. injection H as <-. left.
       apply release_waiter_books in Er. exact Er.
@@ -408,8 +423,8 @@ Proof.
       { rewrite Ep. intros [(k' & E)|(k' & cn & E)]; discriminate. }
       assert (P : conn_inv (proceed c s t k)).
       { split; [intros _; apply proceed_fresh; assumption|]. rewrite proceed_closed, Hc. discriminate. }
-      destruct (take_idle k (idle s)); [injection H as <-; exact P|].
-      destruct (connect_must_wait _); [|injection H as <-; exact P].
+      destruct (if connect_fast_path (avail c s k) then take_idle k (idle s) else None); [injection H as <-; exact P|].
+      unfold start_tail in H. destruct (connect_must_wait _); [|injection H as <-; exact P].
       destruct (refuse_wait s); injection H as <-; (split; [|cbn; rewrite Hc; discriminate]); intros _;
         (eapply fresh_same_books; [| | | | |exact I1]; try reflexivity;
          intros t' Ho; cbn [with_pc with_waiters pcs] in *;
@@ -429,10 +444,21 @@ Proof.
         destruct (wait_slot_found _).
         -- injection H as <-.
            split; [intros _; apply proceed_fresh; assumption|]. rewrite proceed_closed. cbn. rewrite Hc. discriminate.
-        -- destruct (refuse_wait s1); injection H as <-; (split; [|cbn; rewrite Hc; discriminate]); intros _;
-             (eapply fresh_same_books; [| | | | |exact I1]; try reflexivity;
-              intros t' Ho; cbn [with_pc with_waiters with_woken pcs] in *;
-              apply set_pc_nonowner_back; [first [apply not_owner_waiting|apply not_owner_failed]|exact Ho]).
+        -- unfold requeue in H. destruct (hand_on c s1 order) as [s2|] eqn:Eh; [|discriminate].
+           destruct (hand_on_frame _ _ _ _ Eh) as (A & _ & B & D & E & G).
+           assert (P2 : forall p t', ~ is_owner_pc p -> is_owner_pc (get_pc (set_pc (pcs s2) t p) t') ->
+                        get_pc (set_pc (pcs s2) t p) t' = get_pc (pcs s1) t').
+           { intros p t' Hp Ho. unfold hand_on in Eh. destruct requeue_hands_on.
+             - unfold release_waiter in Eh. destruct (covers order (waiters s1)); [|discriminate]. injection Eh as <-.
+               destruct (release_then_pc_back c s1 order t p t' Hp Ho) as (Y & _). exact Y.
+             - injection Eh as <-. apply set_pc_nonowner_back; assumption. }
+           destruct (refuse_wait s2); injection H as <-;
+             (split; [|cbn [with_pc with_waiters closed]; rewrite D; cbn; rewrite Hc; discriminate]); intros _;
+             (eapply fresh_same_books; [| | | | |exact F1];
+              [cbn [with_pc with_waiters acquired]; exact A|cbn [with_pc with_waiters idle]; exact B
+              |cbn [with_pc with_waiters nconn]; exact E|cbn [with_pc with_waiters closedc]; exact G|];
+              intros t' Ho; cbn [with_pc with_waiters pcs] in *;
+              apply P2; [first [apply not_owner_waiting|apply not_owner_failed]|exact Ho]).
       * injection H as <-. split; [|cbn; rewrite Hc; discriminate]. intros _.
         eapply fresh_same_books; [| | | | |exact I1]; try reflexivity.
         intros t' Ho. cbn [with_pc with_waiters pcs] in *.
